@@ -100,4 +100,18 @@ def c10 (oh : ObservedHistory) : Bool := judgeWith c01Ev Ghost.init oh && judgeW
 /-- C14: forced runs run everything, and the history (with its forced runs) still satisfies C01 -/
 def c14 (oh : ObservedHistory) : Bool := judgeWith c14Ev Ghost.init oh && judgeWith c01Ev Ghost.init oh
 
+/-- C09 as far as the run loop is concerned: the report never contradicts what ran (`bad`: a command failed and the
+    results do not show it, a task that ran is missing from them, exit status 0 with a failed command), and a task that
+    failed is not treated as up to date later (C01 over the same ghost: a failure records nothing) -/
+def c09Ev (_ : Ghost) : OEvent → Bool
+  | .invoke _ _ _ oc _ => oc != .bad
+  | _ => true
+
+def hasFailure (oh : ObservedHistory) : Bool :=
+  oh.any fun
+    | .invoke _ _ tr _ _ => tr.any fun e => e.2 == .ranFail
+    | _ => false
+
+def c09 (oh : ObservedHistory) : Bool := judgeWith c09Ev Ghost.init oh && judgeWith c01Ev Ghost.init oh
+
 end Spok.Judge.Run
